@@ -1,6 +1,7 @@
 import I18n.Model.Mo
 import I18n.Generated.MoParser
 import I18n.Lemmas.MoBytes
+import I18n.Lemmas.MoParse
 /-!
 # The definitions regenerated from `lib/moparser.py` equal the hand-written model
 
@@ -10,6 +11,7 @@ This file proves, for every byte string, that it computes the same function as `
 model — hold of the regenerated text.  The proofs never mention a bound variable of the generated code: renaming
 locals in the source does not disturb them.
 -/
+set_option linter.unusedSimpArgs false
 namespace I18n.Mo.Gen
 open I18n.Mo I18n.Generated.MoParser
 
@@ -216,4 +218,163 @@ theorem parse_entry_eq (db : CodecDB) (self : Self) (be : Bool) (h : self._endia
               · rfl
         · simp [hc]
     · rfl
+/-- what `Parser.parse` returns after a run -/
+def instOf (r : Except Err Self) : Except Err MoFile :=
+  match r with
+  | .error e => .error e
+  | .ok s => .ok s.instance_
+
+@[simp] theorem instOf_error (e : Err) : instOf (.error e) = .error e := rfl
+@[simp] theorem instOf_ok (s : Self) : instOf (.ok s) = .ok s.instance_ := rfl
+
+/-- one iteration of `for i in range(n_strings)` as the model has it -/
+def stepM (db : CodecDB) (be : Bool) (mo so : Nat) (i : Nat) (s : Self) : Except Err Self :=
+  match parseEntry db be s._view (stOf s) i (mo + 8 * i) (so + 8 * i) with
+  | .error e => .error e
+  | .ok (entry, st) =>
+    .ok { withSt s st with instance_ := { s.instance_ with entries := s.instance_.entries ++ [entry] } }
+
+theorem forRange_loop (db : CodecDB) (be : Bool) (mo so : Nat) (f : Nat → Self → Except Err Self)
+    (hf : ∀ i s, s._endian = endianOf be → f i s = stepM db be mo so i s) (k : Nat) :
+    ∀ (i : Nat) (s : Self), s._endian = endianOf be →
+      instOf (Py.forRangeFrom f k i s) =
+        match loop db be s._view mo so k i (stOf s) with
+        | .error e => .error e
+        | .ok es => .ok ⟨s.instance_.entries ++ es, s.instance_.possibleHiddenStrings⟩ := by
+  induction k with
+  | zero => intro i s _; simp [Py.forRangeFrom, loop]
+  | succ k ih =>
+    intro i s hs
+    simp only [Py.forRangeFrom, loop, hf i s hs, stepM]
+    cases hp : parseEntry db be s._view (stOf s) i (mo + 8 * i) (so + 8 * i) with
+    | error e => rfl
+    | ok r =>
+      obtain ⟨entry, st⟩ := r
+      simp only []
+      rw [ih]
+      · simp only [withSt, stOf]
+        cases loop db be s._view mo so k (i + 1) st <;> simp
+      · simpa [withSt] using hs
+
+
+theorem magic_le : little_endian_magic = leMagic := rfl
+theorem magic_be : big_endian_magic = beMagic := rfl
+
+/- case analysis over the atoms of lines 95–103: the minor revision, word 36 -/
+set_option hygiene false in
+local macro "hidden_cases" : tactic => `(tactic| (
+  by_cases hm1 : rev % 65536 > 1
+  · simp_all
+  · by_cases hm2 : rev % 65536 = 1
+    · obtain ⟨r36, h36⟩ : ∃ x, readInts be self._view 36 1 = x := ⟨_, rfl⟩
+      rcases r36 with e36 | ws36
+      · simp_all
+      · rcases ws36 with _ | ⟨ns, _ | ⟨x, t⟩⟩
+        · simp_all
+        · by_cases hns : ns > 0 <;> simp_all
+        · simp_all
+    · simp_all))
+
+set_option maxHeartbeats 1000000 in
+/-- `Parser._parse` (header, flag, loop) is `Mo.parse` -/
+theorem parse_body_eq (db : CodecDB) (self : Self) (hi : self.instance_ = ⟨[], false⟩) :
+    instOf (Parser._parse db self) = Mo.parse db self._encoding self._view := by
+  simp only [Parser._parse, Mo.parse, magic_le, magic_be, decide_eq_true_eq]
+  split
+  · rename_i e heq
+    by_cases hle : slice self._view 0 4 = leMagic
+    · simp [hle] at heq
+    · by_cases hbe : slice self._view 0 4 = beMagic
+      · simp [hle, hbe, show beMagic ≠ leMagic by decide] at heq
+      · simp only [hle, hbe, if_false] at heq ⊢
+        cases heq; rfl
+  · rename_i s' heq
+    obtain ⟨be, hs', hR⟩ : ∃ be, s' = { self with _endian := endianOf be } ∧
+        (if slice self._view 0 4 = leMagic then parseBody db self._encoding self._view false
+          else if slice self._view 0 4 = beMagic then parseBody db self._encoding self._view true
+          else .error (.syntax .magic)) = parseBody db self._encoding self._view be := by
+      by_cases hle : slice self._view 0 4 = leMagic
+      · refine ⟨false, ?_, by simp [hle]⟩
+        simp only [hle, if_true] at heq
+        cases heq; rfl
+      · by_cases hbe : slice self._view 0 4 = beMagic
+        · refine ⟨true, ?_, by simp [hle, hbe, show beMagic ≠ leMagic by decide]⟩
+          simp only [hle, hbe, if_true, if_false] at heq
+          cases heq; rfl
+        · simp [hle, hbe] at heq
+    rw [hR]
+    subst hs'
+    clear heq hR
+    have hr : ∀ s : Self, s._endian = endianOf be → ∀ a n, Parser._read_ints db s a n = readInts be s._view a n :=
+      fun s hs a n => read_ints_eq db s be hs a n
+    simp only [hr, parseBody_eq, read1, read2, Py.divmod, show (1 <<< 16 : Nat) = 65536 from rfl,
+      show (65536 : Nat) ≠ 0 by decide, if_false, decide_eq_true_eq]
+    cases h1 : readInts be self._view 4 1 with
+    | error e => rfl
+    | ok ws =>
+      rcases ws with _ | ⟨rev, _ | ⟨x, t⟩⟩
+      · rfl
+      · simp only []
+        by_cases hmaj : rev / 65536 > 1
+        · simp [hmaj]
+        · simp only [hmaj, if_false]
+          cases h2 : readInts be self._view 8 1 with
+          | error e => rfl
+          | ok ws2 =>
+            rcases ws2 with _ | ⟨n, _ | ⟨x, t⟩⟩
+            · rfl
+            · simp only []
+              split
+              · rename_i e heq
+                have hh : hiddenStep be self._view (rev % 65536) = .error e := by
+                  simp only [hiddenStep, read1]
+                  hidden_cases
+                simp [hh]
+              · rename_i phs heq
+                have hh : hiddenStep be self._view (rev % 65536) = .ok phs := by
+                  simp only [hiddenStep, read1]
+                  hidden_cases
+                simp only [hh]
+                clear heq hh
+                cases h4 : readInts be self._view 12 2 with
+                | error e => rfl
+                | ok ws4 =>
+                  rcases ws4 with _ | ⟨mo, _ | ⟨so, _ | ⟨x, t⟩⟩⟩
+                  · rfl
+                  · rfl
+                  · simp only [Py.forRange]
+                    refine (forRange_loop db be mo so _ ?_ n 0 _ rfl).trans ?_
+                    · intro i s hs
+                      simp only [parse_entry_eq db s be hs, stepM]
+                      cases parseEntry db be s._view (stOf s) i (mo + 8 * i) (so + 8 * i) with
+                      | error e => rfl
+                      | ok r => rfl
+                    · simp only [stOf, hi, List.nil_append]
+                      cases loop db be self._view mo so n 0 ⟨self._encoding, none⟩ <;> rfl
+                  · rfl
+            · rfl
+      · rfl
+
+/-- `Parser.__init__` (with the file's bytes for `open(path, 'rb').read()`), then `.parse()` -/
+theorem init_eq (db : CodecDB) (enc : Option Bytes) (bytes : Bytes) :
+    instOf (Parser.__init__ db Self.unset bytes () enc false ()) = Mo.parse db enc bytes := by
+  simp only [Parser.__init__, Bool.false_eq_true, if_false, Py.viewIndex, decide_eq_true_eq]
+  split
+  · rename_i e heq
+    exfalso
+    by_cases hl : bytes.length > 0
+    · obtain ⟨c, hc⟩ : ∃ c, bytes[0]? = some c := ⟨bytes[0], by simp [hl]⟩
+      simp [hl, hc] at heq
+    · simp [hl] at heq
+  · exact parse_body_eq db _ rfl
+
+/-- **The regenerated parser is the model**: `Parser(path, encoding=enc).parse()` as translated from the current
+    source computes `Mo.parse` on every byte string, for every codec database and either `encoding` argument. -/
+theorem generated_parse_eq (db : CodecDB) (enc : Option Bytes) (bytes : Bytes) :
+    I18n.Generated.MoParser.parse db enc bytes = Mo.parse db enc bytes := by
+  have h := init_eq db enc bytes
+  simp only [I18n.Generated.MoParser.parse]
+  cases hI : Parser.__init__ db Self.unset bytes () enc false () with
+  | error e => rw [hI] at h; exact h
+  | ok s => rw [hI] at h; simpa [Parser.parse] using h
 end I18n.Mo.Gen
